@@ -52,6 +52,10 @@ type Descriptor struct {
 	// VoidReturn indicates if the constructor has no valid return values
 	VoidReturn bool
 
+	// aliases lists every descriptor created by one registration with several
+	// As interfaces (including this one): they are produced by one construction
+	aliases []*Descriptor
+
 	// Analysis results cached for performance
 	isFunc         bool
 	isResultObject bool
